@@ -10,6 +10,7 @@ import (
 	"strings"
 	"testing"
 	"testing/synctest"
+	"time"
 )
 
 func init() {
@@ -139,12 +140,18 @@ func c05run(t *testing.T, cs c05case) (problems []string, outcome string) {
 			problems = append(problems, fmt.Sprintf("agent state changed beyond the role: before %q after %q", before, after))
 		}
 		// the role attribute of the next request reflects the outcome
-		if cs.Phase != "connected" {
+		{
 			n := len(sw.sentLog)
+			if cs.Phase == "connected" {
+				// the next request of a connected agent is the keepalive check on the selected pair
+				time.Sleep(defaultKeepaliveInterval + 100*time.Millisecond)
+			}
 			sw.tick()
+			nreq := 0
 			for _, d := range sw.sentLog[n:] {
 				si := describeSTUN(d.data)
 				if si.class == "request" {
+					nreq++
 					want := "controlled"
 					if nowControlling {
 						want = "controlling"
@@ -157,6 +164,9 @@ func c05run(t *testing.T, cs c05case) (problems []string, outcome string) {
 					}
 				}
 			}
+			if nreq == 0 {
+				problems = append(problems, "HARNESS: the agent sent no request after the conflict, so the role attribute of its next request was not observed")
+			}
 		}
 	})
 
@@ -168,6 +178,7 @@ func checkC05(c *runCtx) {
 	B := []uint64{0, 1, 1<<32 - 1, 1 << 32, 0x0102030405060708, 0x0807060504030201, 1<<63 - 1, 1 << 63, 1<<64 - 2, 1<<64 - 1}
 	outcomes := newDistinct()
 	cases := 0
+	t0table := time.Now()
 	for _, role := range []string{"controlling", "controlled"} {
 		for _, phase := range []string{"fresh", "pending", "connected"} {
 			for _, tx := range B {
@@ -201,6 +212,7 @@ func checkC05(c *runCtx) {
 			}
 		}
 	}
+	c.set("table_wall_s", time.Since(t0table).Seconds())
 	c.set("table_cases", cases)
 	c.set("table_distinct_outcomes", outcomes.count())
 	c.sample(map[string]any{"part": "table", "case": c05case{Role: "controlling", TieX: B[4], TieP: B[5], SameRole: true, Phase: "pending"}, "outcomes": outcomes.top(6)})
